@@ -6,6 +6,22 @@ containers and locks; z3 decides over ALL interleavings of the recorded event
 programs; every schedule it returns is forced on real threads running the real
 code and only reported if the violation reproduces.
 Engine X: sequential histories of singleton uses and clears.
+
+Thread programs of the Engine S scenarios (scenarios()):
+  operative record  - calls of one (scope, configurable) with different call shapes (dflt(7), dflt(b=8),
+                      dflt(REQUIRED), dflt(7, b=REQUIRED)), a record written through the evaluation of a
+                      reference (cons.p = @a/dflt()) racing a direct writer of the same key, macro and
+                      constant consumers, nested / string-scoped / inherited scopes with the starting thread
+                      holding a scope open, class and method configurables, dynamic registration; a reader.
+                      Oracle: no thread fails, every read parses, every call delivers what it delivers alone,
+                      the final operative config equals that of SOME sequential order (compared after every
+                      forced run on the real dump, and by the solver on the modelled cells).
+  singletons        - k/j through references; objects None / 0 / []; a constructor that raises on its first
+                      call (the uses retry); scope names '' / a / b / a/b, uses from inside an enclosing scope;
+                      a constructor that itself uses a singleton.  Oracle: one successful construction per
+                      key, all uses of a key get that object, it is the object its own constructor made.
+  informational     - a thread calling clear_config (outside the quantifier): decided, reported in the
+                      evidence (engines.engine_s.informational), cannot fail the check.
 """
 import json
 import os
@@ -17,6 +33,61 @@ from vf import rt
 from vf import world
 
 ROOT = os.path.dirname(os.path.dirname(os.path.dirname(os.path.abspath(__file__))))
+sys.path.insert(0, os.path.join(ROOT, 'fixtures'))      # vfx (dynamic-registration scenario)
+
+from vf.sched import proxies as _px   # plain Python (no z3): also loaded by concrete replays
+
+
+# ---------------------------------------------------------------------------------------------
+# probes of this module (registered once per process under the Gin module path `vw18`)
+# ---------------------------------------------------------------------------------------------
+class Flaky(Exception):
+  """raised by the flaky constructor on its first call"""
+
+
+class Obj:
+  """object delivered by the probe constructors: remembers which constructor call made it"""
+
+  def __init__(self, tag, inner=None):
+    self.tag, self.inner = tag, inner
+
+  def __repr__(self):
+    return 'Obj(%r)' % (self.tag,)
+
+
+def _hook(tag):
+  if world.CONSTRUCT_HOOK[0] is not None:
+    world.CONSTRUCT_HOOK[0](tag)
+
+
+if not hasattr(world, '_vw18'):
+  # "the flaky constructor has not failed yet", as an event-producing cell: the constructor's
+  # behaviour depends on it, so the engine has to see the access (external:flaky is modelled like
+  # any other shared dict)
+  _ARMED = _px.external_dict('flaky')
+
+  @gin.configurable(module='vw18')
+  def mk(tag='?', kind=0):
+    """kind 0: Obj(tag); 1: None; 2: 0; 3: a new empty list; 4: raises on the first call, then Obj(tag).
+    The construct hook only sees SUCCESSFUL constructions."""
+    if kind == 4 and _ARMED.pop(tag, None):
+      raise Flaky('first construction of %r fails' % (tag,))
+    _hook(tag)
+    return [Obj(tag), None, 0, []][kind] if kind < 4 else Obj(tag)
+
+  @gin.configurable(module='vw18')
+  def mkpair(inner=None, tag='?'):
+    """a constructor that itself uses a singleton (bound to `inner`)"""
+    _hook(tag)
+    return Obj(tag, inner)
+
+  @gin.configurable(module='vw18')
+  def take(p=None, q=None):
+    return (p, q)
+
+  world._vw18 = dict(mk=mk, mkpair=mkpair, take=take, ARMED=_ARMED, Flaky=Flaky, Obj=Obj)
+mk, mkpair, take = world._vw18['mk'], world._vw18['mkpair'], world._vw18['take']
+ARMED, Flaky, Obj = world._vw18['ARMED'], world._vw18['Flaky'], world._vw18['Obj']
 
 
 # ---------------------------------------------------------------------------------------------
@@ -42,12 +113,14 @@ def _call_in(scope):
   return prog
 
 
+from gin import config_parser as _config_parser
+from vf.harness.c03 import Delegate as _Delegate    # imported here, never for the first time on a program thread
+
+
 def _reader():
   text = gin.operative_config_str()
   # every read parses (checked on the thread itself, natively, into a scratch parser)
-  from gin import config_parser
-  from vf.harness.c03 import Delegate
-  list(config_parser.ConfigParser(text, Delegate()))
+  list(_config_parser.ConfigParser(text, _Delegate()))
   return text
 
 
@@ -60,11 +133,160 @@ def _check_no_exception(results, final):
   return None
 
 
+# ---- call shapes, reference-evaluated writers, macros/constants, scopes, classes and methods ----------
+def _expecting(prog, expect, label):
+  prog.expect, prog.label = expect, label
+  return prog
+
+
+def _shape(scope, shape):
+  """One call of vw.dflt in `scope` with call shape 0: dflt()  1: dflt(7)  2: dflt(b=8)
+  3: dflt(gin.REQUIRED)  4: dflt(7, b=gin.REQUIRED).  With `vw.dflt.a = 1`, `a/vw.dflt.b = 2` the
+  records of the shapes differ ({a,b} / {b} / {a} / {a,b} / {b}), so a lost or merged update of
+  one record is visible in the final operative config."""
+  def prog():
+    with gin.config_scope(scope):
+      if shape == 0:
+        return world.dflt()
+      if shape == 1:
+        return world.dflt(7)
+      if shape == 2:
+        return world.dflt(b=8)
+      if shape == 3:
+        return world.dflt(gin.REQUIRED)
+      return world.dflt(7, b=gin.REQUIRED)
+  return _expecting(prog, [(1, 2), (7, 2), (1, 8), (1, 2), (7, 2)][shape], 'shape %d' % shape)
+
+
+def _setup_refwriter():
+  world.fresh()
+  gin.parse_config(['vw.dflt.a = 1', 'a/vw.dflt.b = 2', 'vw.cons.p = @a/vw.dflt()'])
+
+
+def _cons_via_reference():
+  return world.cons()          # its own record, then - through deepcopy of the reference - ('a', 'vw.dflt')
+
+
+_cons_via_reference.expect = ((1, 2), None)
+
+
+def _setup_macros():
+  world.fresh()
+  gin.constant('vw18c.K', 5)
+  gin.parse_config(['M = 3', 'vw.dflt.a = %M', 'vw.dflt.b = %vw18c.K', 's/M = 4', 's/vw.dflt.a = %s/M'])
+
+
+def _macro_consumer(scope):
+  def prog():
+    if scope:
+      with gin.config_scope(scope):
+        return world.dflt()
+    return world.dflt()
+  return _expecting(prog, (4, 5) if scope else (3, 5), 'macro consumer %r' % scope)
+
+
+def _setup_scopes():
+  world.fresh()
+  gin.parse_config(['vw.dflt.a = 1', 'a/vw.dflt.b = 2', 'a/b/vw.dflt.b = 4', 'z/vw.dflt.b = 9', 'm/vw.dflt.a = 13',
+                    'm/vw.dflt.b = 14'])
+  # the thread that starts the workers keeps a scope open while they run: a worker's scope stack must
+  # start empty (world.fresh() of the next setup drops this entry again)
+  gin.config_scope('m').__enter__()
+
+
+def _nested_ab():
+  with gin.config_scope('a'):
+    with gin.config_scope('b'):
+      return world.dflt(), gin.current_scope()
+
+
+_nested_ab.expect = ((1, 4), ['a', 'b'])
+
+
+def _string_scoped_from_z():
+  with gin.config_scope('z'):
+    inner = gin.get_configurable('a/b/vw.dflt')()     # scope list REPLACES z for the call
+    outer = world.dflt(7)                               # and z is back afterwards
+    return inner, outer, gin.current_scope()
+
+
+_string_scoped_from_z.expect = ((1, 4), (7, 9), ['z'])
+
+
+def _scope_a_only():
+  with gin.config_scope('a'):
+    return world.dflt(7)
+
+
+_scope_a_only.expect = (7, 2)
+
+
+def _setup_classes():
+  world.fresh()
+  gin.parse_config(['vw.Kinit.a = 1', 'a/vw.Kreg.b = 2', 'vw.Kmeth.meth.a = 3', 'a/vw.Kmeth.meth.b = 4'])
+
+
+def _class_direct():
+  return world.Kinit().got, world.Kinit(b=8).got
+
+
+_class_direct.expect = ((1, world.DB), (1, 8))
+
+
+def _class_scoped_api():
+  return gin.get_configurable('a/vw.Kreg')().got, gin.get_configurable('vw.Kreg')(5).got
+
+
+_class_scoped_api.expect = ((world.DA, 2), (5, world.DB))
+
+
+def _method(scoped):
+  def prog():
+    obj = gin.get_configurable('a/vw.Kmeth' if scoped else 'vw.Kmeth')()
+    return obj.meth()
+  return _expecting(prog, (3, 4) if scoped else (3, world.DB), 'method scoped=%r' % scoped)
+
+
+def _setup_dynamic():
+  world.fresh()
+  gin.parse_config('from __gin__ import dynamic_registration\nimport vfx.alpha.mod as am\n'
+                   'am.consumer.p = @am.fn()\nam.fn.x = 1\nsc/am.fn.y = 2\n')
+
+
+def _dyn_consumer():
+  import vfx.alpha.mod as am
+  return gin.get_configurable(am.consumer)()
+
+
+_dyn_consumer.expect = (('alpha.fn', 1, 0), None)
+
+
+def _dyn_fn_scoped():
+  import vfx.alpha.mod as am
+  with gin.config_scope('sc'):
+    return gin.get_configurable(am.fn)()
+
+
+_dyn_fn_scoped.expect = ('alpha.fn', 1, 2)
+
+
+def _check_calls(results, final, programs=None):
+  """No thread fails; every call delivers what it delivers when it runs alone."""
+  v = _check_no_exception(results, final)
+  if v:
+    return v
+  for i, (r, prog) in enumerate(zip(results, programs or ())):
+    if hasattr(prog, 'expect') and r[1] != prog.expect:
+      return 'thread %d (%s): the call delivered %r; alone it delivers %r' % (
+          i, getattr(prog, 'label', prog.__name__), r[1], prog.expect)
+  return None
+
+
+# ---- singletons -----------------------------------------------------------------------------------
 CONSTRUCTED = []
 
 
-def _setup_singleton():
-  world.fresh()
+def _install_construct_hook():
   del CONSTRUCTED[:]
   from vf.sched import proxies
 
@@ -72,6 +294,11 @@ def _setup_singleton():
     CONSTRUCTED.append(tag)
     proxies.external('construct', tag)
   world.CONSTRUCT_HOOK[0] = hook
+
+
+def _setup_singleton():
+  world.fresh()
+  _install_construct_hook()
   gin.parse_config(['vw.cons.p = @k/gin.singleton()', 'vw.cons.q = @j/gin.singleton()',
                     'k/gin.singleton.constructor = @k/vw.mkobj', 'j/gin.singleton.constructor = @j/vw.mkobj',
                     "k/vw.mkobj.tag = 'k'", "j/vw.mkobj.tag = 'j'",
@@ -100,7 +327,134 @@ def _check_singleton(results, final):
   return None
 
 
+# Second generation of singleton scenarios.  Every key X has the consumer binding
+# `cX/vw18.take.p = @X/gin.singleton()` and the constructor `@X/vw18.mk` with tag X; a program
+# returns [(key, delivered object or ('exc', exception))...] in the order of its uses.
+KINDS2 = {'k': 0, 'j': 0, 'n': 1, 'z': 2, 'e': 3, 'f': 4, 'a': 0, 'b': 0, 'a/b': 0}
+
+
+def _c(key):
+  return 'c' + key.replace('/', '_')
+
+
+def _setup_singleton2():
+  world.fresh()
+  _install_construct_hook()
+  dict.clear(ARMED)
+  dict.__setitem__(ARMED, 'f', True)
+  text = []
+  for key, kind in KINDS2.items():
+    text += ['%s/vw18.take.p = @%s/gin.singleton()' % (_c(key), key),
+             '%s/gin.singleton.constructor = @%s/vw18.mk' % (key, key),
+             '%s/vw18.mk.tag = %r' % (key, key), '%s/vw18.mk.kind = %d' % (key, kind)]
+  # key '' (no scope at all): consumer vw.cons, called outside every scope
+  text += ['vw.cons.p = @gin.singleton()', 'gin.singleton.constructor = @vw18.mk', "vw18.mk.tag = ''",
+           'vw18.mk.kind = 0']
+  # a constructor that itself uses a singleton: pair -> j   (reentrant use of the singleton lock)
+  text += ['cpair/vw18.take.p = @pair/gin.singleton()', 'pair/gin.singleton.constructor = @pair/vw18.mkpair',
+           "pair/vw18.mkpair.tag = 'pair'", 'pair/vw18.mkpair.inner = @j/gin.singleton()']
+  gin.parse_config(text)
+
+
+def _uses(*keys, **kw):
+  """Uses the singletons `keys` one after another through their consumers.  '' is used through
+  vw.cons outside every scope; a key written 'X@outer' is used from inside an enclosing scope
+  (consumer scope cX/outer: the reference's own scope list replaces it)."""
+  retry = kw.get('retry', False)
+
+  def one(key):
+    inside = key.endswith('@outer')
+    key = key[:-6] if inside else key
+    if key == '':
+      return world.cons()[0]
+    with gin.config_scope(_c(key)):
+      if inside:
+        with gin.config_scope('outer'):
+          return take()[0]
+      return take()[0]
+
+  def prog():
+    out = []
+    for key in keys:
+      name = key[:-6] if key.endswith('@outer') else key
+      for attempt in range(2 if retry else 1):
+        try:
+          out.append((name, one(key)))
+          break
+        except Flaky as e:
+          out.append((name, ('exc', e)))
+    return out
+  prog.label = 'uses %s' % (keys,)
+  return prog
+
+
+def _check_singleton2(results, final):
+  for i, r in enumerate(results):
+    if r is None:
+      return 'thread %d did not finish' % i
+    if r[0] == 'exc':
+      return 'thread %d failed: %r' % (i, r[1])
+  for tag in set(CONSTRUCTED):
+    if CONSTRUCTED.count(tag) > 1:
+      return 'singleton %r constructed %d times' % (tag, CONSTRUCTED.count(tag))
+  got, failed = {}, {}
+  for i, r in enumerate(results):
+    for key, obj in r[1]:
+      if isinstance(obj, tuple) and len(obj) == 2 and obj[0] == 'exc':
+        failed[key] = failed.get(key, 0) + 1
+        continue
+      got.setdefault(key, []).append(obj)
+  for key, n in failed.items():
+    # the flaky constructor fails exactly once: only the use that made that call may see the failure
+    if KINDS2.get(key) != 4 or n > 1:
+      return 'singleton %r: %d uses failed' % (key, n)
+  for key, objs in got.items():
+    for o in objs[1:]:
+      if o is not objs[0]:
+        return 'uses of singleton %r received different objects' % (key,)
+    o = objs[0]
+    kind = KINDS2.get(key, 0)
+    want_type = {1: type(None), 2: int, 3: list}.get(kind, Obj)
+    if type(o) is not want_type or (want_type is Obj and o.tag != key):
+      return 'singleton %r delivered %r, which its constructor did not make' % (key, o)
+    if CONSTRUCTED.count(key) != 1:
+      return 'singleton %r delivered but constructed %d times' % (key, CONSTRUCTED.count(key))
+    if key == 'pair' and 'j' in got and o.inner is not got['j'][0]:
+      return "the constructor of 'pair' received another object for singleton 'j' than the direct uses"
+  objs = [v[0] for k, v in got.items() if KINDS2.get(k, 0) in (0, 4)]
+  if len(set(map(id, objs))) != len(objs):
+    return 'two different scope names share one object'
+  return None
+
+
+# ---- outside the quantifier: a clearing thread (reported, never failing the check) ------------------
+def _clearer():
+  gin.clear_config()
+  return 'cleared'
+
+
+def _direct_k():
+  """first use of k through the Python API (works whether or not the configuration was cleared)"""
+  def ctor():
+    _hook('k')
+    return Obj('k')
+  with gin.config_scope('k'):
+    return [('k', gin.get_configurable('gin.singleton')(ctor))]
+
+
+def _check_informational(results, final):
+  """Describes what a forced run showed (so that a solver schedule can be confirmed); the caller
+  only reports it."""
+  for i, r in enumerate(results):
+    if r is None:
+      return 'thread %d did not finish' % i
+    if r[0] == 'exc':
+      return 'thread %d fails: %r' % (i, r[1])
+  return None        # (a second construction after the clear is legitimate: not an observation)
+
+
 def scenarios(tier):
+  thorough = tier == 'thorough'
   out = [
       ('operative: writer a | writer b | reader', [_call_in('a'), _call_in('b'), _reader],
        _setup_operative, _check_no_exception, 'standard'),
@@ -117,7 +471,76 @@ def scenarios(tier):
   if tier == 'thorough':
     out.append(('operative: 2 writers | 2 readers', [_call_in('a'), _call_in('b'), _reader, _reader],
                 _setup_operative, _check_no_exception, 'standard'))
+  # ---- widened vocabulary (appended: the indices above are referred to by recorded replays) --------
+  out += [
+      # two FIRST calls of one (scope, configurable) whose records differ: {b} and {a}
+      ('shapes: a:dflt(7) | a:dflt(b=8) | reader', [_shape('a', 1), _shape('a', 2), _reader],
+       _setup_operative, _check_calls, 'calls'),
+      ('shapes: a:dflt(REQUIRED) | a:dflt(7) | a:dflt(b=8) | a:dflt(7, b=REQUIRED)',
+       [_shape('a', 3), _shape('a', 1), _shape('a', 2), _shape('a', 4)][:4 if thorough else 3],
+       _setup_operative, _check_calls, 'calls'),
+      ('existing {b} record: a:dflt(b=8) | a:dflt(REQUIRED) | reader', [_shape('a', 2), _shape('a', 3), _reader],
+       _setup_operative_partial, _check_calls, 'calls'),
+      # a record written through the evaluation of a reference, racing a direct writer of the same key
+      ('reference: cons(p=@a/dflt()) | a:dflt(7) | reader', [_cons_via_reference, _shape('a', 1), _reader],
+       _setup_refwriter, _check_calls, 'calls'),
+      ('reference: cons(p=@a/dflt()) | cons(p=@a/dflt()) | a:dflt(b=8)',
+       [_cons_via_reference, _cons_via_reference, _shape('a', 2)] + ([_reader] if thorough else []),
+       _setup_refwriter, _check_calls, 'calls'),
+      # macro and constant records ('M', 'gin.macro') / ('vw18c.K', 'gin.constant')
+      ('macros: dflt(a=%M, b=%K) | s:dflt(a=%s/M) | reader', [_macro_consumer(''), _macro_consumer('s'), _reader],
+       _setup_macros, _check_calls, 'calls'),
+      ('macros: dflt(a=%M, b=%K) | dflt(a=%M, b=%K) | reader', [_macro_consumer(''), _macro_consumer(''), _reader],
+       _setup_macros, _check_calls, 'calls'),
+      # nested scope, string-scoped API from inside another scope, starter thread holds a scope open
+      ('scopes: a/b nested | z: get_configurable(a/b/dflt) | a:dflt(7) | reader; starter in scope m',
+       [_nested_ab, _string_scoped_from_z, _reader] + ([_scope_a_only] if thorough else []),
+       _setup_scopes, _check_calls, 'calls'),
+      # class and method configurables
+      ('classes: Kinit() x2 | get_configurable(a/Kreg)() | reader', [_class_direct, _class_scoped_api, _reader],
+       _setup_classes, _check_calls, 'calls'),
+      ('methods: a/Kmeth().meth() | Kmeth().meth() | reader', [_method(True), _method(False), _reader],
+       _setup_classes, _check_calls, 'calls'),
+      # reader under dynamic registration (Python-level loops over the live record)
+      ('dynamic registration: consumer(p=@am.fn()) | sc:am.fn() | reader', [_dyn_consumer, _dyn_fn_scoped, _reader],
+       _setup_dynamic, _check_calls, 'calls'),
+      # ---- singletons ----
+      ('singleton2: falsy objects  n,e,z | e,n,z', [_uses('n', 'e', 'z'), _uses('e', 'n', 'z')],
+       _setup_singleton2, _check_singleton2, 'singleton2'),
+      ('singleton2: constructor fails once  f(retry) | f(retry)' + (' | f' if thorough else ''),
+       [_uses('f', retry=True), _uses('f', retry=True)] + ([_uses('f')] if thorough else []),
+       _setup_singleton2, _check_singleton2, 'singleton2'),
+      ("singleton2: key shapes  '',a/b | a,a/b@outer | b,''",
+       [_uses('', 'a/b'), _uses('a', 'a/b@outer'), _uses('b', '')][:3 if thorough else 2],
+       _setup_singleton2, _check_singleton2, 'singleton2'),
+      ("singleton2: key shapes  a/b,b | b,a/b@outer", [_uses('a/b', 'b'), _uses('b', 'a/b@outer')],
+       _setup_singleton2, _check_singleton2, 'singleton2'),
+      ('singleton2: constructor uses a singleton  pair | j,pair', [_uses('pair'), _uses('j', 'pair')],
+       _setup_singleton2, _check_singleton2, 'singleton2'),
+  ]
   return out
+
+
+def _setup_operative_info():
+  _setup_operative()
+  del CONSTRUCTED[:]
+
+
+def informational_scenarios(tier):
+  """Thread programs OUTSIDE the quantifier of the property (it lists: call configurables, read the
+  operative config, use singletons).  Decided like the others, reported in the evidence, and unable to
+  fail the check."""
+  return [
+      ('outside quantifier: clear_config() | first use of k (Python API) | first use of k (Python API)',
+       [_clearer, _direct_k, _direct_k], _setup_singleton2, _check_informational, 'informational'),
+      ('outside quantifier: clear_config() | a:dflt(7) | a:dflt(b=8)',
+       [_clearer, _shape('a', 1), _shape('a', 2)], _setup_operative_info, _check_informational, 'informational'),
+  ]
+
+
+def _seq_finals(programs, setup):
+  from vf.sched import driver
+  return driver.sequential_finals(programs, setup)
 
 
 def c18_forced(tier: str, scenario: int, schedule: str, shared: str) -> bool:
@@ -129,58 +552,109 @@ def c18_forced(tier: str, scenario: int, schedule: str, shared: str) -> bool:
 
   def abstract(final):
     return {k: ('present' if str(t).startswith(('obj#', 'dict#')) else t)
-            for k, t in final.items() if k[0] in shared_set}
-  _, _, _, seq_final, _ = driver.run(programs, setup, 'solo')
+            for k, t in final.items() if k[0] in shared_set or k[0].startswith('_OPERATIVE_CONFIG')}
+  if kind == 'calls':
+    seq_finals = driver.sequential_finals(programs, setup)
+  else:
+    seq_finals = [driver.run(programs, setup, 'solo')[3]]
   traces, results, errors, final, names = driver.run(programs, setup, 'forced', sched,
                                                      list(range(len(programs))), shared_set)
-  v = check(results, final)
-  if v is None and kind == 'standard' and abstract(final) != abstract(seq_final):
+  if _px.CTL.unfaithful:
+    raise RuntimeError('the forced run went on without a lock it needed (%r): not an execution of the real code'
+                       % (errors,))
+  v = _run_check(check, results, final, programs)
+  if v is None and kind in ('standard', 'calls') and abstract(final) not in [abstract(f) for f in seq_finals]:
     v = 'final shared state differs from the sequential one: %r vs %r' % (
-        sorted(abstract(final).items()), sorted(abstract(seq_final).items()))
+        sorted(abstract(final).items()), sorted(abstract(seq_finals[0]).items()))
   if v and os.environ.get('VERIF_EXPLAIN'):
     sys.stderr.write('FAIL: %s\n' % v)
   return v is None
 
 
+def _run_check(check, results, final, programs):
+  if check is _check_calls:
+    return check(results, final, programs)
+  return check(results, final)
+
+
+def _solve_one(idx, scen_tuple, cov, violations, infra, tier, informational=False, ignore=None):
+  import z3
+  from vf.sched import driver
+  name, programs, setup, check, kind = scen_tuple
+
+  def prop(model, scen):
+    qs = driver.standard_queries(model, scen)
+    if kind in ('singleton', 'singleton2', 'informational'):
+      for (obj, key), e in model.effects.items():
+        if obj == 'external:construct':
+          qs.append(('constructor of %s called twice' % key,
+                     [z3.UGT(model.eff[e][model.T], 1), z3.Not(model.div[model.T])]))
+    return qs
+  scen = driver.Scenario(name, programs, setup, prop,
+                         lambda results, final: _run_check(check, results, final, programs),
+                         ignore=ignore if ignore is not None else (
+                             ('_OPERATIVE_CONFIG',) if kind in ('singleton', 'singleton2') else ()),
+                         permute=kind in ('calls', 'informational'),
+                         final_objects=('_OPERATIVE_CONFIG',) if kind in ('standard', 'calls') else ())
+  try:
+    vs, exhaustive = scen.solve()
+  except Exception as e:  # pylint: disable=broad-except
+    import traceback
+    (cov['informational'] if informational else infra).append('%s: %s' % (name, traceback.format_exc()[-800:]))
+    return
+  entry = dict(name=name, threads=len(programs), learn_iterations=scen.stats['learn_iters'],
+               forced_runs=scen.forced_runs, shared=sorted(getattr(scen, 'shared', [])))
+  if informational:
+    entry['outcome'] = ([t for t, _ in vs] + list(scen.infra)) or ['no schedule fails a query']
+    cov['informational'].append(entry)
+    return
+  cov['states'] += scen.stats['states']
+  cov['queries'] += scen.stats['queries']
+  cov['solver_s'] += scen.stats['solver_s']
+  cov['replayed'] += scen.forced_runs
+  cov['samples'].extend(scen.samples)
+  cov['sigs'][name] = True
+  cov['exhaustive'] = cov['exhaustive'] and exhaustive and not vs
+  cov['scenarios'].append(entry)
+  infra.extend(scen.infra)
+  for text, sched in vs:
+    violations.append(dict(text=text, kwargs=dict(tier=tier, scenario=idx,
+                                                  schedule=','.join(map(str, sched)),
+                                                  shared='|'.join(sorted(getattr(scen, 'shared', []))))))
+
+
 def engine_s_main(tier, seed):
   """Runs inside the overlay venv (needs z3)."""
   import time
-  import z3
-  from vf.sched import driver
   t0 = time.time()
   cov = dict(states=0, queries=0, solver_s=0.0, replayed=0, samples=[], sigs={}, exhaustive=True,
-             scenarios=[])
-  violations, infra, functions = [], [], set()
-  for idx, (name, programs, setup, check, kind) in enumerate(scenarios(tier)):
-    def prop(model, scen, kind=kind):
-      qs = driver.standard_queries(model, scen)
-      if kind == 'singleton':
-        for (obj, key), e in model.effects.items():
-          qs.append(('constructor of %s called twice' % key,
-                     [z3.UGT(model.eff[e][model.T], 1), z3.Not(model.div[model.T])]))
-      return qs
-    scen = driver.Scenario(name, programs, setup, prop, check,
-                           ignore=('_OPERATIVE_CONFIG',) if kind == 'singleton' else ())
-    try:
-      vs, exhaustive = scen.solve()
-    except Exception as e:  # pylint: disable=broad-except
-      import traceback
-      infra.append('%s: %s' % (name, traceback.format_exc()[-800:]))
+             scenarios=[], informational=[])
+  violations, infra = [], []
+  only = os.environ.get('VERIF_SCEN')      # development aid: comma-separated scenario indices
+  for idx, tup in enumerate(scenarios(tier)):
+    if only and str(idx) not in only.split(','):
       continue
-    cov['states'] += scen.stats['states']
-    cov['queries'] += scen.stats['queries']
-    cov['solver_s'] += scen.stats['solver_s']
-    cov['replayed'] += scen.forced_runs
-    cov['samples'].extend(scen.samples)
-    cov['sigs'][name] = True
-    cov['exhaustive'] = cov['exhaustive'] and exhaustive and not vs
-    cov['scenarios'].append(dict(name=name, threads=len(programs), learn_iterations=scen.stats['learn_iters'],
-                                 forced_runs=scen.forced_runs, shared=sorted(getattr(scen, 'shared', []))))
-    infra.extend(scen.infra)
-    for text, sched in vs:
-      violations.append(dict(text=text, kwargs=dict(tier=tier, scenario=idx,
-                                                    schedule=','.join(map(str, sched)),
-                                                    shared='|'.join(sorted(getattr(scen, 'shared', []))))))
+    t1 = time.time()
+    if violations:
+      # a schedule has been found already: the remaining scenarios still run, but a scenario whose
+      # (changed) code makes the model large may give up early - as a note, never as a verdict
+      from vf.sched import bmc
+      bmc.Model.TIMEOUT_MS = 15000
+    _solve_one(idx, tup, cov, violations, infra, tier)
+    if os.environ.get('VERIF_EXPLAIN'):
+      sys.stderr.write('scenario %d %.1fs %s\n' % (idx, time.time() - t1, tup[0]))
+  if not only or 'info' in only.split(','):
+    from vf.sched import bmc
+    bmc.Model.TIMEOUT_MS = 20000
+    for idx, tup in enumerate(informational_scenarios(tier)):
+      t1 = time.time()
+      # (in the singleton one the accesses to the bindings and to the operative record are abstracted
+      # away: the Python-API uses do not depend on them)
+      _solve_one(idx, tup, cov, [], [], tier, informational=True,
+                 ignore=('_CONFIG', '_OPERATIVE_CONFIG') if 'first use' in tup[0] else ())
+      if os.environ.get('VERIF_EXPLAIN'):
+        sys.stderr.write('informational %d %.1fs %s\n' % (idx, time.time() - t1, tup[0]))
+  cov['samples'] = cov['samples'][:8]
   cov['solver_s'] = round(cov['solver_s'], 2)
   cov['wall_s'] = round(time.time() - t0, 1)
   return dict(coverage=cov, violations=violations, infra=infra,
@@ -216,60 +690,211 @@ ENGINES = {'engine_s': engine_s}
 # ---------------------------------------------------------------------------------------------
 # Engine X: sequential histories of singleton uses and clears
 # ---------------------------------------------------------------------------------------------
+SEQ_TEXT = ['vw.cons.p = @k/gin.singleton()', 'vw.cons.q = @j/gin.singleton()',
+            'k/gin.singleton.constructor = @k/vw.mkobj', 'j/gin.singleton.constructor = @j/vw.mkobj',
+            "k/vw.mkobj.tag = 'k'", "j/vw.mkobj.tag = 'j'", 'vw.lit.p = @k/gin.singleton()',
+            # falsy objects, a constructor that fails once, key shapes
+            'cne/vw18.take.p = @n/gin.singleton()', 'cne/vw18.take.q = @e/gin.singleton()',
+            'n/gin.singleton.constructor = @n/vw18.mk', "n/vw18.mk.tag = 'n'", 'n/vw18.mk.kind = 1',
+            'e/gin.singleton.constructor = @e/vw18.mk', "e/vw18.mk.tag = 'e'", 'e/vw18.mk.kind = 3',
+            'cf/vw18.take.p = @f/gin.singleton()',
+            'f/gin.singleton.constructor = @f/vw18.mk', "f/vw18.mk.tag = 'f'", 'f/vw18.mk.kind = 4',
+            'cab/vw18.take.p = @a/b/gin.singleton()', 'cab/vw18.take.q = @b/gin.singleton()',
+            'a/b/gin.singleton.constructor = @a/b/vw18.mk', "a/b/vw18.mk.tag = 'a/b'",
+            'b/gin.singleton.constructor = @b/vw18.mk', "b/vw18.mk.tag = 'b'",
+            'vw.kwo.a = @gin.singleton()', 'gin.singleton.constructor = @vw18.mk', "vw18.mk.tag = ''"]
+KEY_OF_TAG = {'k': 'k', 'kk': 'k', 'k2': 'k', 'other': 'k', 'py': 'k', 'j': 'j', 'n': 'n', 'e': 'e', 'f': 'f',
+              'a/b': 'a/b', 'b': 'b', '': '', 'other0': ''}
+NOPS_OLD, NOPS = 5, 17
+OPNAMES = ['use k,j (references)', 'use k (reference)', 'clear_config + re-parse',
+           'singleton_value(k, other constructor)', 'singleton_value(k)', 'clear_config (no re-parse)',
+           'clear_config(clear_constants=True) + re-parse', 'rebind constructor of k', 'rebind tag of k',
+           'bind a non-callable constructor for k', 'bind the original constructor for k',
+           "config_scope('k'): get_configurable('gin.singleton')(ctor)", 'finalize',
+           'use n (None), e ([])', 'use f (constructor fails once)', 'use a/b, b from inside a scope',
+           "use '' (reference and API)"]
+
+
+def _seq(ops):
+  """Runs one history against the reference model.
+
+  Model: per configuration lifetime (from start / from a clear) every key is constructed at most
+  once; the first delivery of a key needs a construction in THIS lifetime; every later delivery is
+  that same object, whatever constructor is bound or passed by then; a use fails exactly when the
+  key is not cached and there is no usable constructor (or the flaky constructor makes its one
+  failing call), and a failed use caches nothing."""
+  built = []
+  world.CONSTRUCT_HOOK[0] = built.append
+  dict.clear(ARMED)
+  dict.__setitem__(ARMED, 'f', True)
+  gin.parse_config(SEQ_TEXT)
+  st = dict(current={}, start=0, parsed=True, ctor='ok', locked=False, armed=True)
+
+  def made():
+    return [KEY_OF_TAG[t] for t in built[st['start']:]]
+
+  def deliver(key, obj, before):
+    """`obj` was delivered for `key`; `before`: keys constructed in this lifetime before the op."""
+    cur = st['current']
+    if key in cur:
+      if obj is not cur[key]:
+        return 'a later use of %r received a different object' % (key,)
+    else:
+      if key not in made():
+        return 'singleton %r delivered without a construction in this configuration lifetime' % (key,)
+      cur[key] = obj
+    return None
+
+  def invariant():
+    m = made()
+    for key in set(m):
+      if m.count(key) > 1:
+        return 'singleton %r constructed %d times in one configuration lifetime' % (key, m.count(key))
+    return None
+
+  def new_life(reparse):
+    st['current'], st['start'], st['locked'], st['ctor'] = {}, len(built), False, 'ok'
+    st['parsed'] = reparse
+    if reparse:
+      gin.parse_config(SEQ_TEXT)
+
+  def bind(lines):
+    if st['locked']:
+      with gin.unlock_config():
+        gin.parse_config(lines)
+    else:
+      gin.parse_config(lines)
+
+  def other(tag):
+    def ctor():
+      built.append(tag)
+      return Obj(tag)
+    return ctor
+
+  try:
+    for op in ops:
+      before = made()
+      v = None
+      if op in (0, 1):                    # use k and j / use k only, through references
+        call = world.cons if op == 0 else world.lit
+        expect_fail = st['parsed'] and 'k' not in before and st['ctor'] == 'bad'
+        try:
+          res = call()
+          if expect_fail:
+            return rt.no('a use with a non-callable constructor and nothing cached succeeded')
+          if not st['parsed']:
+            if res != (None, None):
+              return rt.no('bindings survived clear_config')
+          else:
+            v = deliver('k', res[0], before) or (op == 0 and deliver('j', res[1], before)) or None
+        except ValueError:
+          if not expect_fail:
+            return rt.no('a use failed although the singleton is cached or its constructor is fine')
+          if 'k' in made():
+            return rt.no('a failed use constructed the singleton')
+      elif op in (2, 5, 6):
+        if op == 6:
+          gin.clear_config(clear_constants=True)
+        else:
+          gin.clear_config()
+        new_life(reparse=op != 5)
+      elif op in (3, 4, 11):              # Python API: other constructor / no constructor / plain call in scope k
+        try:
+          if op == 3:
+            obj = gin.config.singleton_value('k', other('other'))
+          elif op == 4:
+            obj = gin.config.singleton_value('k')
+          else:
+            with gin.config_scope('k'):
+              obj = gin.get_configurable('gin.singleton')(other('py'))
+          if op == 4 and 'k' not in before:
+            return rt.no('singleton_value without constructor and nothing cached succeeded')
+          v = deliver('k', obj, before)
+        except ValueError:
+          if op != 4 or 'k' in before:
+            return rt.no('cached singleton forgotten, or a usable constructor rejected')
+      elif op == 7:                       # another constructor for k: the cached object must win
+        bind(['k/gin.singleton.constructor = @k/vw18.mk', "k/vw18.mk.tag = 'k2'"])
+        st['ctor'] = 'ok'
+      elif op == 8:
+        bind(["k/vw.mkobj.tag = 'kk'"])
+      elif op == 9:                       # an evaluated (hence non-callable) constructor result
+        bind(['k/gin.singleton.constructor = @k/vw.src()'])
+        st['ctor'] = 'bad'
+      elif op == 10:
+        bind(['k/gin.singleton.constructor = @k/vw.mkobj'])
+        st['ctor'] = 'ok'
+      elif op == 12:
+        if not st['locked']:
+          gin.finalize()
+          st['locked'] = True
+      elif op == 13:                      # falsy objects
+        with gin.config_scope('cne'):
+          res = take()
+        if not st['parsed']:
+          if res != (None, None):
+            return rt.no('bindings survived clear_config')
+        else:
+          if res[0] is not None or type(res[1]) is not list:
+            return rt.no('falsy singleton objects not delivered')
+          v = deliver('n', res[0], before) or deliver('e', res[1], before)
+      elif op == 14:                      # constructor that fails on its first call
+        expect_fail = st['parsed'] and 'f' not in before and st['armed']
+        try:
+          with gin.config_scope('cf'):
+            res = take()
+          if expect_fail:
+            return rt.no('the failing constructor call was swallowed')
+          if st['parsed']:
+            v = deliver('f', res[0], before)
+        except Flaky:
+          if not expect_fail:
+            return rt.no('a use failed although the singleton is cached or its constructor works')
+          st['armed'] = False
+          if 'f' in made():
+            return rt.no('a failed construction was cached')
+      elif op == 15:                      # nested scope name, used from inside an enclosing scope
+        with gin.config_scope('cab'):
+          with gin.config_scope('outer'):
+            res = take()
+        if st['parsed']:
+          v = deliver('a/b', res[0], before) or deliver('b', res[1], before)
+          if v is None and (res[0] is res[1] or res[0].tag != 'a/b' or res[1].tag != 'b'):
+            return rt.no("keys 'a/b' and 'b' are not kept apart")
+      else:                               # key '': reference outside every scope and the API
+        if st['parsed']:
+          v = deliver('', world.kwo()[0], before)
+          before = made()
+        if v is None:
+          v = deliver('', gin.config.singleton_value('', other('other0')), before)
+      v = v or invariant()
+      if v:
+        return rt.no(v)
+    return True
+  finally:
+    world.CONSTRUCT_HOOK[0] = None
+
+
 def c18_singleton_seq(n: int, o0: int, o1: int, o2: int, o3: int, o4: int) -> bool:
   """
   pre: 1 <= n <= 5 and 0 <= o0 < 5 and 0 <= o1 < 5 and 0 <= o2 < 5 and 0 <= o3 < 5 and 0 <= o4 < 5
   """
   world.fresh()
-  ops = [rt.pick(o, 5) for o in (o0, o1, o2, o3, o4)[:n]]
+  ops = [rt.pick(o, NOPS_OLD) for o in (o0, o1, o2, o3, o4)[:n]]
   rt.sig(('singleton_seq', tuple(ops)), nontrivial=len(ops) >= 2)
   with rt.native():
-    built = []
-    world.CONSTRUCT_HOOK[0] = built.append
-    text = ['vw.cons.p = @k/gin.singleton()', 'vw.cons.q = @j/gin.singleton()',
-            'k/gin.singleton.constructor = @k/vw.mkobj', 'j/gin.singleton.constructor = @j/vw.mkobj',
-            "k/vw.mkobj.tag = 'k'", "j/vw.mkobj.tag = 'j'", 'vw.lit.p = @k/gin.singleton()']
-    gin.parse_config(text)
-    current = {}          # reference: key -> object of this configuration lifetime
-    try:
-      for op in ops:
-        if op == 0 or op == 1:           # use k and j / use k only
-          before = list(built)
-          res = world.cons() if op == 0 else (world.lit()[0], None)
-          for key, obj in zip('kj', res):
-            if obj is None:
-              continue
-            if key in current:
-              if obj is not current[key]:
-                return rt.no('a later use received a different object')
-            else:
-              current[key] = obj
-          new = built[len(before):]
-          if sorted(new) != sorted(set(new)):
-            return rt.no('constructed twice in one use')
-        elif op == 2:
-          gin.clear_config()
-          gin.parse_config(text)
-          current = {}
-        elif op == 3:                    # direct API with a different constructor: cache wins
-          obj = gin.config.singleton_value('k', lambda: 'other')
-          if 'k' in current:
-            if obj is not current['k']:
-              return rt.no('singleton_value ignored the cached object')
-          else:
-            current['k'] = obj
-        else:                            # no constructor and nothing cached is an error
-          try:
-            obj = gin.config.singleton_value('k')
-            if 'k' not in current or obj is not current['k']:
-              return rt.no('singleton_value without constructor')
-          except ValueError:
-            if 'k' in current:
-              return rt.no('cached singleton forgotten')
-      # one construction per key per configuration lifetime
-      return True
-    finally:
-      world.CONSTRUCT_HOOK[0] = None
+    return _seq(ops)
+
+
+def c18_singleton_hist(n: int, o0: int, o1: int, o2: int, o3: int) -> bool:
+  """
+  pre: 1 <= n <= 4 and 0 <= o0 < 17 and 0 <= o1 < 17 and 0 <= o2 < 17 and 0 <= o3 < 17
+  """
+  world.fresh()
+  ops = [rt.pick(o, NOPS) for o in (o0, o1, o2, o3)[:n]]
+  rt.sig(('singleton_hist', tuple(ops)), nontrivial=len(ops) >= 2)
+  with rt.native():
+    return _seq(ops)
 
 
 HARNESSES = {
@@ -283,6 +908,24 @@ HARNESSES = {
         bounds='every history of 4 (quick) / 5 (thorough) operations from {use k and j through references, use k '
                'only, clear_config + re-parse, singleton_value with another constructor, singleton_value without '
                'constructor}'),
+    'c18_singleton_hist': dict(
+        fn='c18_singleton_hist',
+        anchors=['gin.config:singleton_value', 'gin.config:singleton', 'gin.config:clear_config',
+                 'gin.config:finalize', 'gin.config:unlock_config'],
+        smoke=[dict(n=4, o0=9, o1=1, o2=10, o3=0), dict(n=4, o0=0, o1=7, o2=8, o3=1),
+               dict(n=4, o0=5, o1=4, o2=3, o3=11), dict(n=4, o0=12, o1=9, o2=6, o3=1),
+               dict(n=4, o0=13, o1=14, o2=14, o3=13), dict(n=4, o0=15, o1=16, o2=2, o3=16),
+               dict(n=3, o0=14, o1=5, o2=14, o3=0)],
+        tiers={'quick': dict(split=dict(o0=list(range(17))), fixed=dict(n=3, o3=0), budget_s=150),
+               'thorough': dict(split=dict(o0=list(range(17)), o1=list(range(17))), fixed=dict(n=4),
+                                budget_s=300)},
+        bounds='every history of 3 (quick) / 4 (thorough) operations from the 17 of OPNAMES: the five above plus '
+               'clear_config without re-parse, clear_config(clear_constants=True), re-binding the constructor or '
+               'the tag of k without a clear, binding an evaluated (non-callable) constructor and correcting it, '
+               "the plain Python path config_scope('k'): get_configurable('gin.singleton')(ctor), finalize (later "
+               'bindings through unlock_config), singletons whose object is None / [], a constructor that raises '
+               "on its first call, the nested scope name 'a/b' next to 'b' used from inside an enclosing scope, "
+               "and the empty scope name ''"),
 }
 RULE = ('Engine S: one case per scenario (all interleavings of its recorded event programs decided by z3); Engine X: one '
         'case per operation history')
@@ -291,7 +934,18 @@ SOLVER_ROLE = ('decides schedules: z3 over the unrolled interleaving transition 
 OUTSIDE = ('in the singleton scenarios the operative-record accesses (all under their own lock and checked by the operative '
            'scenarios) are abstracted away; switch points inside a single C-level dict operation (excluded by the GIL), free-threaded builds, more than 4 '
            'threads; iteration ORDER of a shared dict is abstracted (only the key set seen when an iterator is created '
-           'selects the continuation)')
+           'selects the continuation); state that is not a module-level dict or lock of gin.config is invisible to '
+           'Engine S: _PARSE_CONTEXTS (list), _IMPORTS (set), the SelectorMaps _REGISTRY / _CONSTRUCTORS-like instances '
+           '(their inner dicts), locks created at run time - hence a configurable BODY that calls gin.query_parameter / '
+           'operative_config_str while another thread reads (the reader pushes a ParseContext on the shared list) is '
+           'not decided; a thread that calls clear_config is outside the quantifier: one such scenario is decided and '
+           'reported under engines.engine_s.informational without influencing the verdict')
 ASSUMPTIONS = ['shared state = module-level dicts and locks of gin.config found by scanning vars(gin.config) '
                '(listed per scenario in the evidence); a thread\'s event sequence depends only on its observations of '
-               'shared reads (checked: a non-deterministic trace raises an infrastructure error)']
+               'shared reads (checked: a non-deterministic trace raises an infrastructure error)',
+               'the final operative config is compared with that of running the same programs one after another in '
+               'ANY order (the statement does not fix one); a reentrant lock\'s inner acquire/release by its holder is '
+               'not an event (it can neither block nor change the holder); a blocking acquire of a non-reentrant lock '
+               'by its holder raises in that thread instead of hanging',
+               'each call is also required to deliver what it delivers when run alone (scopes, bindings and '
+               'references of another thread - or of the thread that started the workers - must not leak into it)']
